@@ -60,6 +60,8 @@ pub enum RecvRes {
     Panic(String),
     /// dropping the guard panicked
     DropPanic(String),
+    /// internal: the guard was retained, the message is received again (never reported)
+    Retained,
 }
 
 thread_local! {
@@ -87,6 +89,16 @@ thread_local! {
 
 fn use_default(i: usize) -> bool {
     USE_DEFAULT.with(|p| p.borrow().get(i).copied().unwrap_or(false))
+}
+
+thread_local! {
+    /// Bit i: the receiver first calls `retain()` on the guard of message #i ("destroy the guard but do not
+    /// remove the message") and receives again; the next recv() must yield the same message.
+    pub static RETAIN_MASK: std::cell::Cell<u64> = std::cell::Cell::new(0);
+}
+
+fn retain_bit(i: usize) -> bool {
+    i < 64 && RETAIN_MASK.with(|m| m.get()) >> i & 1 == 1
 }
 
 fn raw_image(i: usize) -> Option<Vec<u8>> {
@@ -213,12 +225,25 @@ pub fn recv_blocking<T: Shape + ?Sized>(source: &mut ScriptSource, max_msg_len: 
         None => Receiver::<T, _>::io(&mut *source, max_msg_len),
     };
     let mut retries_left = retries;
+    let mut retained: Option<Value> = None;
+    let mut msg_idx = 0usize;
     while out.len() < max_events {
         let r = catch_unwind(AssertUnwindSafe(|| -> (RecvRes, bool) {
             match receiver.recv() {
                 Ok(guard) => {
                     let delivered = unsafe { (*src_ptr).at };
-                    let ro = shallow_read::<T>(&*guard, &*guard as *const T as *const u8 as usize);
+                    let mut ro = shallow_read::<T>(&*guard, &*guard as *const T as *const u8 as usize);
+                    if retained.is_none() && retain_bit(msg_idx) {
+                        retained = Some(ro.value);
+                        guard.retain();
+                        return (RecvRes::Retained, true);
+                    }
+                    if let Some(prev) = retained.take() {
+                        if prev != ro.value {
+                            ro.anomalies.push(format!("after retain() the next recv() yields {} instead of the retained {}", ro.value.show(), prev.show()));
+                        }
+                    }
+                    msg_idx += 1;
                     let res = RecvRes::Msg {
                         value: ro.value,
                         size: ro.size,
@@ -238,6 +263,10 @@ pub fn recv_blocking<T: Shape + ?Sized>(source: &mut ScriptSource, max_msg_len: 
         }));
         dl.push(unsafe { (*src_ptr).at });
         match r {
+            Ok((RecvRes::Retained, _)) => {
+                dl.pop();
+                continue;
+            }
             Ok((res, cont)) => {
                 let is_read = matches!(res, RecvRes::Read(_));
                 out.push(res);
@@ -350,6 +379,8 @@ pub fn async_recv<T: Shape + ?Sized>(source: &mut ScriptSource, max_msg_len: usi
     };
     let mut retries_left = retries;
     let mut polls = 0;
+    let mut retained: Option<Value> = None;
+    let mut msg_idx = 0usize;
     while out.len() < max_events {
         let r = catch_unwind(AssertUnwindSafe(|| {
             run_single(
@@ -357,7 +388,18 @@ pub fn async_recv<T: Shape + ?Sized>(source: &mut ScriptSource, max_msg_len: usi
                     match receiver.recv().await {
                         Ok(guard) => {
                             let delivered = unsafe { (*src_ptr).at };
-                            let ro = shallow_read::<T>(&*guard, &*guard as *const T as *const u8 as usize);
+                            let mut ro = shallow_read::<T>(&*guard, &*guard as *const T as *const u8 as usize);
+                            if retained.is_none() && retain_bit(msg_idx) {
+                                retained = Some(ro.value);
+                                guard.retain();
+                                return (RecvRes::Retained, true);
+                            }
+                            if let Some(prev) = retained.take() {
+                                if prev != ro.value {
+                                    ro.anomalies.push(format!("after retain() the next recv() yields {} instead of the retained {}", ro.value.show(), prev.show()));
+                                }
+                            }
+                            msg_idx += 1;
                             let res = RecvRes::Msg {
                                 value: ro.value,
                                 size: ro.size,
@@ -380,6 +422,11 @@ pub fn async_recv<T: Shape + ?Sized>(source: &mut ScriptSource, max_msg_len: usi
         }));
         dl.push(unsafe { (*src_ptr).at });
         match r {
+            Ok(Some(((RecvRes::Retained, _), p))) => {
+                polls += p;
+                dl.pop();
+                continue;
+            }
             Ok(Some(((res, cont), p))) => {
                 polls += p;
                 let is_read = matches!(res, RecvRes::Read(_));
@@ -481,10 +528,23 @@ pub fn async_joined<T: Shape + ?Sized>(
                 Some(cap) => AsyncReceiver::<T, _>::new(IoBuffer::new(rend, cap, T::ALIGN)),
                 None => AsyncReceiver::<T, _>::io(rend, max_msg_len),
             };
+            let mut retained: Option<Value> = None;
+            let mut msg_idx = 0usize;
             while recvs.borrow().len() < max_events {
                 match receiver.recv().await {
                     Ok(guard) => {
-                        let ro = shallow_read::<T>(&*guard, &*guard as *const T as *const u8 as usize);
+                        let mut ro = shallow_read::<T>(&*guard, &*guard as *const T as *const u8 as usize);
+                        if retained.is_none() && retain_bit(msg_idx) {
+                            retained = Some(ro.value);
+                            guard.retain();
+                            continue;
+                        }
+                        if let Some(prev) = retained.take() {
+                            if prev != ro.value {
+                                ro.anomalies.push(format!("after retain() the next recv() yields {} instead of the retained {}", ro.value.show(), prev.show()));
+                            }
+                        }
+                        msg_idx += 1;
                         recvs.borrow_mut().push(RecvRes::Msg {
                             value: ro.value,
                             size: ro.size,
